@@ -317,3 +317,22 @@ func (s *StructSpec) WalkTypes(fn func(*TypeSpec)) {
 	}
 	ws(s)
 }
+
+// AnyNoCopy reports whether s or a struct reachable from it declares a nocopy field.
+func (s *StructSpec) AnyNoCopy() bool {
+	nc := false
+	chk := func(x *StructSpec) {
+		for _, f := range x.Fields {
+			if f.NoCopy {
+				nc = true
+			}
+		}
+	}
+	chk(s)
+	s.WalkTypes(func(t *TypeSpec) {
+		if t.Kind == KStruct {
+			chk(t.SS())
+		}
+	})
+	return nc
+}
